@@ -2821,6 +2821,7 @@ default : /** Multiple data-chunks to free.  Free them,
 
     /** Read in the table **/
    ADFI_read_data_chunk_table( file_index, &node_header->data_chunks,
+                               node_header->number_of_data_chunks,
                                data_chunk_table, error_return ) ;
    if( *error_return != NO_ERROR )
       return ;
@@ -5974,7 +5975,10 @@ ADFI read data chunk table:
 
 input:  const unsigned int file_index	The file index.
 input:  const struct DISK_POINTER *block_offset  Block & offset in the file.
-output: struct DATA_CHUNK_TABLE_ENTRY data_chunk_table[] Array of DC entries.
+input:  const unsigned int number_of_data_chunks  Entries in the table
+					according to the node header.
+output: struct DATA_CHUNK_TABLE_ENTRY data_chunk_table[] Array of DC entries
+					(room for number_of_data_chunks).
 output:	int *error_return		Error return.
 
    Possible errors:
@@ -5985,6 +5989,7 @@ ADF_FILE_NOT_OPENED
 void    ADFI_read_data_chunk_table(
 		const unsigned int file_index,
 		const struct DISK_POINTER *block_offset,
+		const unsigned int number_of_data_chunks,
 		struct DATA_CHUNK_TABLE_ENTRY data_chunk_table[],
 		int *error_return )
 {
@@ -6020,6 +6025,15 @@ number_of_bytes_to_read =
 	(end_of_chunk_tag.block - block_offset->block) * DISK_BLOCK_SIZE +
 	(end_of_chunk_tag.offset - block_offset->offset) -
 	(TAG_SIZE + DISK_POINTER_SIZE) ;
+
+	/** The length of the table on disk must agree with the number of
+	    data chunks recorded in the node header: the caller's array
+	    was allocated from that number **/
+if( number_of_bytes_to_read / (2 * DISK_POINTER_SIZE) !=
+    (cgulong_t)number_of_data_chunks ) {
+   *error_return = ADF_DISK_TAG_ERROR ;
+   return ;
+   } /* end if */
 
 	/** Read the data from disk **/
 tmp_block_offset.block = block_offset->block ;
